@@ -1,6 +1,8 @@
 package main
 
 import (
+	"context"
+	"time"
 	"bytes"
 	"crypto/sha256"
 	"encoding/json"
@@ -12,6 +14,7 @@ import (
 
 	"github.com/acekingke/yaccgo/verifsched"
 
+	"verifharness/evid"
 	"verifharness/gen"
 	"verifharness/gram"
 	"verifharness/ref"
@@ -301,9 +304,10 @@ func c14Native(w *Worker, corpus []gram.Named) {
 				os.Remove(outp)
 				args := append([]string{"generate"}, flags[v]...)
 				args = append(args, in, outp)
-				cm := exec.Command(bin, args...)
-				cm.Dir = dir
+				ctx, cancel := context.WithTimeout(context.Background(), 120*time.Second)
+				cm := evid.Guarded(ctx, 60, dir, nil, bin, args...)
 				cm.Run()
+				cancel()
 				b, _ := os.ReadFile(outp)
 				h := sha256.Sum256(b)
 				w.Count("native_cli_runs", 1)
